@@ -34,6 +34,7 @@ enum SOp {
     Truncate(usize),
     Clear,
     Retain(u8),
+    RetainPanic(u8, usize),
     Drain(B, B, usize, bool),
     ReplaceRange(B, B, String),
     SplitOff(usize, bool),
@@ -63,6 +64,7 @@ fn name(op: &SOp) -> &'static str {
         SOp::Truncate(..) => "truncate",
         SOp::Clear => "clear",
         SOp::Retain(..) => "retain",
+        SOp::RetainPanic(..) => "retain-panicking-predicate",
         SOp::Drain(..) => "drain",
         SOp::ReplaceRange(..) => "replace_range",
         SOp::SplitOff(..) => "split_off",
@@ -126,6 +128,19 @@ fn apply_b<'b>(b: &'b Bump, s: &mut BString<'b>, op: &SOp, leaked: &mut Vec<(&'b
                 (c as u32) % m != 0
             });
             SRes::Text(seen)
+        }
+        SOp::RetainPanic(m, k) => {
+            let m = *m as u32;
+            let mut calls = 0usize;
+            let k = *k;
+            s.retain(|c| {
+                calls += 1;
+                if calls == k {
+                    std::panic::panic_any(crate::ledger::FusePanic);
+                }
+                (c as u32) % m != 0
+            });
+            SRes::Unit
         }
         SOp::Drain(lo, hi, take, back) => {
             let mut d = s.drain((bound(*lo), bound(*hi)));
@@ -269,6 +284,19 @@ fn apply_s(s: &mut String, op: &SOp) -> SRes {
             });
             SRes::Text(seen)
         }
+        SOp::RetainPanic(m, k) => {
+            let m = *m as u32;
+            let mut calls = 0usize;
+            let k = *k;
+            s.retain(|c| {
+                calls += 1;
+                if calls == k {
+                    std::panic::panic_any(crate::ledger::FusePanic);
+                }
+                (c as u32) % m != 0
+            });
+            SRes::Unit
+        }
         SOp::Drain(lo, hi, take, back) => {
             let mut d = s.drain((bound(*lo), bound(*hi)));
             let mut out = String::new();
@@ -386,7 +414,13 @@ fn gen_op(rng: &mut Rng, len: usize) -> SOp {
         18..=21 => SOp::Remove(gen_idx(rng, len)),
         22..=24 => SOp::Truncate(gen_idx(rng, len)),
         25 => SOp::Clear,
-        26..=27 => SOp::Retain(rng.range(1, 5) as u8),
+        26..=27 => {
+            if rng.chance(1, 3) {
+                SOp::RetainPanic(rng.range(1, 5) as u8, rng.range(1, 8))
+            } else {
+                SOp::Retain(rng.range(1, 5) as u8)
+            }
+        }
         28..=31 => SOp::Drain(gen_bound(rng, len), gen_bound(rng, len), rng.below(4), rng.chance(1, 3)),
         32..=35 => SOp::ReplaceRange(gen_bound(rng, len), gen_bound(rng, len), gen_text(rng, 5)),
         36..=37 => SOp::SplitOff(gen_idx(rng, len), rng.chance(1, 2)),
